@@ -63,4 +63,20 @@ def runLife (tok : List String) : String × String :=
     (out, spec)
   | _ => ("bad-case", "bad-case")
 
+/-- `slife r<min us>.<max us> <n>`: the serial channel task's announced wait delays when every
+    open fails are the strategy's consecutive-failure delays -/
+def runSlife (tok : List String) : String × String :=
+  match tok with
+  | [_, r, n] =>
+    let rr := (String.ofList r.toList.tail).splitOn "."
+    let rmin := (rr.getD 0 "0").toNat?.getD 0
+    let rmax := (rr.getD 1 "0").toNat?.getD 0
+    let k := n.toNat?.getD 0
+    let model := Retry.failures (Retry.create rmin rmax) k
+    -- specification: min * 2^i capped at max
+    let spec := (List.range k).map fun i => Nat.min (rmin * 2 ^ i) rmax
+    let show_ (l : List Nat) := if l.isEmpty then "-" else ",".intercalate (l.map toString)
+    (show_ model, show_ spec)
+  | _ => ("bad-case", "bad-case")
+
 end Rodbus.Driver
